@@ -6,6 +6,9 @@
 -/
 import Rox.Props.C08
 import Rox.Lemmas.Size
+import Rox.Lemmas.RoundTrip
+import Rox.Lemmas.Emits
+import Rox.Props.C01
 
 namespace Rox.Props.C03
 open Rox Rox.Spec Rox.Lemmas Rox.TM
@@ -71,5 +74,59 @@ theorem entityDecl_no_node (T : Tables) (txt : Bytes) (lower : Token → Ctx →
 theorem pi_value_none_iff_empty (content : Span) :
     (if !content.bytes.isEmpty then some content else none) = none ↔ content.bytes = [] := by
   cases h : content.bytes <;> simp [h]
+
+/-- Every byte satisfies `P` if every value below 256 does (to let `decide` run over the bytes). -/
+theorem all_bytes (P : UInt8 → Prop) (h : ∀ i : Fin 256, P (UInt8.ofNat i.val)) : ∀ b : UInt8, P b := by
+  intro b
+  have := h ⟨b.toNat, by have := b.toNat_lt; omega⟩
+  simpa using this
+
+/-- The facts about the character tables that the canonical rendering relies on hold of the tables
+extracted from the current build (re-checked whenever `Generated.lean` changes). -/
+theorem generated_tables_canon : Rox.Spec.Canon.TablesCanon Generated.tables := by
+  refine ⟨?_, ?_, ?_, ?_, ?_, ?_, ?_, ?_⟩
+  · apply all_bytes; decide +kernel
+  · apply all_bytes; decide +kernel
+  · apply all_bytes; decide +kernel
+  · apply all_bytes; decide +kernel
+  · decide
+  · decide
+  · decide
+  · apply all_bytes; decide +kernel
+
+/-- **The tree mirrors the document** (`parse ∘ render`, for EVERY abstract document of the class
+`Rox.Spec.Canon.ok` — any shape, depth and width; elements with any number of attributes,
+comments, text; names over a–z, values and text over printable ASCII without markup characters —
+and every option value that admits it): parsing the canonical rendering succeeds and the tree
+contains exactly the document's elements, comments and text runs, with the same nesting and
+left-to-right order, the exact names, attribute lists, comment bodies and texts, and besides them
+only the root node. Tables of the built crate. -/
+theorem tree_mirrors_document (n : Bytes) (as : List (Bytes × Bytes)) (ks : List Rox.Spec.Canon.XNode)
+    (hx : Rox.Spec.Canon.ok (.elem n as ks) = true) (opt : Opt)
+    (hlim : Rox.Spec.Canon.count (.elem n as ks) + 1 ≤ opt.nodesLimit) (hl32 : opt.nodesLimit ≤ 4294967295)
+    (hattrs : attrCount (.elem n as ks) < 4294967295) :
+    ∃ d, parse Generated.tables (Rox.Spec.Canon.render (.elem n as ks)) opt = .ok d ∧
+      d.nodes.toList.map (Rox.Spec.Canon.view d) =
+        some (none, Rox.Spec.Canon.XKind.root) ::
+          (Rox.Spec.Canon.expect 0 1 (.elem n as ks)).map some :=
+  parse_render Generated.tables C01.generated_tables_ok generated_tables_canon n as ks hx opt hlim hl32 hattrs
+
+/-- The premises are satisfiable and the statement says something: `<a b="c"><!--k-->t<d></d></a>`
+is in the class, and its expected arena has five nodes besides the root. -/
+example :
+    Rox.Spec.Canon.ok (.elem [97] [([98], [99])] [.comment [107], .text [116], .elem [100] [] []]) = true ∧
+    (Rox.Spec.Canon.expect 0 1 (.elem [97] [([98], [99])] [.comment [107], .text [116], .elem [100] [] []])).length = 4 := by
+  decide
+
+/-- Which kinds of token each part of a document can deliver: the prolog only comments and PIs
+(the XML declaration and the BOM yield nothing), the DOCTYPE only entity declarations, comments
+and PIs, element content never an entity declaration. Hence the XML declaration and the DOCTYPE
+yield no nodes of their own, and comments / PIs of prolog, DTD and epilog become children of the
+root in source order (`comment_node`, `pi_node`). -/
+theorem token_kinds_by_region (T : Tables) (txt : Bytes) (s : Stream) (fuel depth : Nat) :
+    Emits (parseProlog T txt) (fun t => t.isMisc = true) ∧
+    Emits (parseDoctype T txt s) (fun t => t.isMisc = true ∨ t.isEntityDecl = true) ∧
+    Emits (parseContent T txt fuel depth s) (fun t => t.isContent = true) :=
+  ⟨parseProlog_emits T txt, parseDoctype_kinds T txt s, parseContent_emits T txt fuel depth s⟩
 
 end Rox.Props.C03
